@@ -13,10 +13,12 @@ import (
 	"encoding/json"
 	"flag"
 	"fmt"
+	"github.com/josephburnett/jd/v2/verif/simos"
 	"os"
 	"sort"
 	"strconv"
 	"sync/atomic"
+	"testing"
 	"time"
 )
 
@@ -121,6 +123,25 @@ var curCase atomic.Value
 var curStart atomic.Int64
 
 func main() {
+	if !simos.TreeHasGoroutines {
+		realMain()
+		return
+	}
+	// The tree under test starts goroutines. Their interleaving is decided by
+	// the scheduler in simos/sched.go, which runs every simulated process and
+	// library call in a testing/synctest bubble; synctest wants a *testing.T,
+	// so the whole program becomes the body of one test.
+	args := os.Args
+	os.Args = []string{args[0]}
+	testing.Main(func(pat, str string) (bool, error) { return true, nil }, []testing.InternalTest{{Name: "jdsim", F: func(t *testing.T) {
+		simos.T = t
+		os.Args = args
+		realMain()
+		os.Exit(0)
+	}}}, nil, nil)
+}
+
+func realMain() {
 	if len(os.Args) < 2 {
 		fmt.Fprintln(os.Stderr, "usage: jdsim <check|worker|digest|replay|smoke> ...")
 		os.Exit(2)
